@@ -62,8 +62,8 @@ type State struct {
 	// loop bookkeeping: variant values at the header of loops currently open
 	variants map[*ssa.BasicBlock][]T
 	iters    map[*ssa.BasicBlock]int
-	ghost    map[string]Val // ghost variables (lock state, ...)
-	fresh    []T            // refs allocated on this path
+	ghost    map[string]Val      // ghost variables (lock state, ...)
+	fresh    []T                 // refs allocated on this path
 	lits     map[*Region][]int16 // known constant bytes of array/literal regions (-1 unknown)
 	heads    map[int]*State      // state at the head of each open loop (by ordinal), for at(k, e)
 	depth    int
@@ -168,29 +168,30 @@ type retPath struct {
 }
 
 type Exec struct {
-	prog    *Program
-	decls   *Decls
-	obs     []*Obligation
-	fnKey   string
-	top     *frame
-	paths   int
-	maxPath int
-	regionN int
-	cellN   int
-	notes   map[string]bool // out-of-subset notes, assumptions used
-	assumed map[string]bool // assumed contracts used
-	mode    ExecMode
-	snap    *EntrySnapshot
-	covers  []*Obligation // reachability covers
-	aborted string
-	inlineDepth int
-	rel     *relCtx
+	prog          *Program
+	decls         *Decls
+	obs           []*Obligation
+	fnKey         string
+	top           *frame
+	paths         int
+	maxPath       int
+	regionN       int
+	cellN         int
+	notes         map[string]bool // out-of-subset notes, assumptions used
+	assumed       map[string]bool // assumed contracts used
+	mode          ExecMode
+	snap          *EntrySnapshot
+	covers        []*Obligation // reachability covers
+	aborted       string
+	inlineDepth   int
+	rel           *relCtx
 	inlinedFns    map[string]bool
 	usedContracts map[string]bool
 	gcells        map[*ssa.Global]*Cell
 	dynHeapSorts  map[string][]string
 	initMode      bool
 	noInits       bool
+	initRefs      int
 }
 
 type ExecMode struct {
@@ -632,6 +633,11 @@ func (ex *Exec) runTop(fn *ssa.Function) {
 	st := &State{cells: map[*Cell]Val{}, regs: map[ssa.Value]Val{}, mem: map[*Region][]T{}, heap: map[string][]T{},
 		variants: map[*ssa.BasicBlock][]T{}, iters: map[*ssa.BasicBlock]int{}, ghost: map[string]Val{}, lits: map[*Region][]int16{}}
 	ex.runInits(st, fn)
+	if fn.Name() == "init" && fn.Parent() == nil {
+		// package initialisers are straight-line code over constants: executed concretely
+		// (callees inlined, loops unrolled), so every obligation is a ground fact
+		ex.initMode = true
+	}
 	f := ex.newFrame(fn, nil)
 	ex.top = f
 	ex.fnKey = f.key
@@ -675,6 +681,11 @@ func (ex *Exec) runTop(fn *ssa.Function) {
 			v := env.evalBool(c.E)
 			st.assume(v)
 		}
+		for _, c := range f.con.Assumes {
+			st.assume(env.evalBool(c.E))
+			ex.assumed["spec definition/axiom assumed in "+f.key+": "+c.Src] = true
+		}
+		f.runGhost(st, "entry")
 		f.entry = st.clone()
 		snap.st = f.entry
 		// vacuity cover: the precondition must be satisfiable
@@ -783,6 +794,22 @@ func (f *frame) doReturn(st *State, r *ssa.Return) {
 		return
 	}
 	ex.paths++
+	f.runGhostRet(st, vals)
+	if g, ok := ex.prog.poolNew[f.fn]; ok && ex.mode.Functional && len(vals) == 1 {
+		// the pool's type invariant is established by its constructor
+		for _, pi := range ex.prog.spec.Pools {
+			if pi.Global == g.Pkg.Pkg.Name()+"."+g.Name() {
+				if iv, ok := vals[0].(VIface); ok && iv.V != nil {
+					env := f.baseEnv(st, f.entry)
+					env.vars["p"] = iv.V
+					env.pkg = g.Pkg
+					f.ob(st, "pool.establish."+sanitize(g.Name()), r.Pos(), env.evalBool(pi.E), "pool constructor establishes the type invariant: "+pi.Src)
+				} else {
+					f.ob(st, "pool.establish."+sanitize(g.Name()), r.Pos(), "false", "pool constructor result is not a known object")
+				}
+			}
+		}
+	}
 	if f.con != nil && ex.mode.Functional {
 		env := f.specEnv(st, f.entry, vals)
 		for _, c := range f.con.Ensures {
@@ -953,7 +980,7 @@ func (f *frame) readElem(st *State, s VSlice, idx T) Val {
 	if m == nil {
 		panic("region without memory: " + s.R.name)
 	}
-	at := tAdd(s.Off, idx)
+	at := tIdx(s.Off, idx)
 	comps := make([]T, len(m))
 	for i, c := range m {
 		comps[i] = tSel(c, at)
@@ -994,7 +1021,7 @@ func (f *frame) writeElem(st *State, s VSlice, idx T, v Val, ins ssa.Instruction
 	}
 	m := st.mem[s.R]
 	comps := ex.flatten(st, v, s.Elem)
-	at := tAdd(s.Off, idx)
+	at := tIdx(s.Off, idx)
 	nm := make([]T, len(m))
 	for i := range m {
 		nm[i] = tStore(m[i], at, comps[i])
@@ -1030,7 +1057,40 @@ func (ex *Exec) heapArr(st *State, n *types.Named, field int) []T {
 	return comps
 }
 
+// ghostArr: the heap map of a ghost field (single component).
+func (ex *Exec) ghostArr(st *State, key string) T {
+	if a, ok := st.heap[key]; ok {
+		return a[0]
+	}
+	a := ex.decls.named("H0_"+key, ex.prog.heapSorts[key][0])
+	st.heap[key] = []T{a}
+	return a
+}
+
+// embRef: address of a struct-typed field embedded in a heap object. Embedded objects live at
+// negative addresses, which are disjoint from nil (0) and from allocated objects (> 0).
+func embRef(ref T, field int) T {
+	return tNeg(tAdd(tMul(ref, "64"), num(int64(field+1))))
+}
+
+func (ex *Exec) embeddedType(n *types.Named, field int) (*types.Named, bool) {
+	u := n.Underlying().(*types.Struct)
+	in, ok := heapStructName(u.Field(field).Type())
+	if !ok || !ex.prog.heapModelled(in) {
+		return nil, false
+	}
+	return in, true
+}
+
 func (ex *Exec) heapLoad(st *State, n *types.Named, field int, ref T) Val {
+	if in, ok := ex.embeddedType(n, field); ok {
+		iu := in.Underlying().(*types.Struct)
+		vs := VStruct{Typ: in}
+		for i := 0; i < iu.NumFields(); i++ {
+			vs.F = append(vs.F, ex.heapLoad(st, in, i, embRef(ref, field)))
+		}
+		return vs
+	}
 	arr := ex.heapArr(st, n, field)
 	comps := make([]T, len(arr))
 	for i, a := range arr {
@@ -1047,6 +1107,14 @@ func (ex *Exec) heapLoad(st *State, n *types.Named, field int, ref T) Val {
 }
 
 func (ex *Exec) heapStore(st *State, n *types.Named, field int, ref T, v Val) {
+	if in, ok := ex.embeddedType(n, field); ok {
+		iu := in.Underlying().(*types.Struct)
+		vs := v.(VStruct)
+		for i := 0; i < iu.NumFields(); i++ {
+			ex.heapStore(st, in, i, embRef(ref, field), vs.F[i])
+		}
+		return
+	}
 	arr := ex.heapArr(st, n, field)
 	u := n.Underlying().(*types.Struct)
 	comps := ex.flatten(st, v, u.Field(field).Type())
